@@ -13,6 +13,10 @@ pub struct RichOpts {
     pub arbitrary_sel: f64,
     pub bad_paths: bool,
     pub also_verify_issued: bool,
+    /// also build a holder from the SD-JWT transcoded into the other serialization and present the same selection (C10)
+    pub xfmt: bool,
+    /// stop after the Issue event (C05 / C12 / C13 volume runs)
+    pub only_issue: bool,
 }
 
 pub const ISSUER_KEYS: [(&str, &str); 3] = [("K1", "ES256"), ("KE1", "EdDSA"), ("S1", "HS256")];
@@ -34,6 +38,9 @@ pub fn run(ctx: &mut Ctx, o: &RichOpts) {
         let mut issuer = new_issuer(key, alg);
         let issued = issue(ctx, &mut issuer, &IssueArgs { inst: "I1", key, alg, claims: &claims, strat: &strat, hk: hk.map(|h| h.0), decoy, fmt });
         let Some(issued) = issued.ok() else { continue };
+        if o.only_issue {
+            continue;
+        }
         let res = Resolver::Const(key.to_string());
         if o.also_verify_issued && r.gen_bool(0.3) {
             verify(ctx, &VerifyArgs { raw: &issued, fmt, res: &res, aud: None, nonce: None, pair: 0, expect: crate::jt::NONE.to_string() });
@@ -50,7 +57,21 @@ pub fn run(ctx: &mut Ctx, o: &RichOpts) {
             },
             _ => KbArgs::default(),
         };
-        let Some(pres) = present(ctx, "P1", &mut holder, fmt, &sel, &kb, 0).ok() else { continue };
+        let ppair = if o.xfmt { ctx.case } else { 0 };
+        let pres = present(ctx, "P1", &mut holder, fmt, &sel, &kb, ppair).ok();
+        if o.xfmt {
+            if let Some(m) = crate::msg::split(&issued, fmt) {
+                let var = [crate::msg::JsonVariant::KbAbsent, crate::msg::JsonVariant::KbNull, crate::msg::JsonVariant::Extra][r.gen_range(0..3)];
+                let other = crate::msg::render(&m, fmt.other(), var);
+                if let Some(mut h2) = holder_new(ctx, "P2", &other, fmt.other()).ok() {
+                    if let Some(p2) = present(ctx, "P2", &mut h2, fmt.other(), &sel, &kb, ppair).ok() {
+                        let ask = kb.key.is_some();
+                        verify(ctx, &VerifyArgs { raw: &p2, fmt: fmt.other(), res: &res, aud: if ask { kb.aud.as_deref() } else { None }, nonce: if ask { kb.nonce.as_deref() } else { None }, pair: 0, expect: crate::jt::NONE.to_string() });
+                    }
+                }
+            }
+        }
+        let Some(pres) = pres else { continue };
         // the verifier asks for key binding when the holder provided one (and sometimes not)
         let ask = kb.key.is_some() && r.gen_bool(0.8);
         verify(
